@@ -41,6 +41,24 @@ class Mangler:
     def _pull(self):
         pl, rng = self.plan, self.rng
         stable = not self.oip
+        script = pl.get("script", {}).get(str(self.side))
+        if script is not None:
+            # witnesses only: the raw events of this side, by index, in the given order (an index may repeat)
+            self.raw_seen = getattr(self, "raw_seen", []) + list(self.raw())
+            if not getattr(self, "script_done", False) and len(self.raw_seen) > max(script):
+                for i in script:
+                    self.buf.append([dataclasses.replace(self.raw_seen[i]), 0, True])
+                    self.stats["copies"] += 1
+                self.stats["events"] += len(self.raw_seen)
+                self.raw_seen = self.raw_seen[max(script) + 1:]
+                self.script_done = True
+            elif getattr(self, "script_done", False):
+                for ev in self.raw_seen:
+                    self.buf.append([dataclasses.replace(ev), 0, True])
+                    self.stats["events"] += 1
+                    self.stats["copies"] += 1
+                self.raw_seen = []
+            return
         for ev in self.raw():
             self.stats["events"] += 1
             n = 1
@@ -53,7 +71,8 @@ class Mangler:
                     self.stats["dropped_paths"] += 1
                 hold = 0
                 if stable and pl.get("delay") and rng.random() < 0.5:
-                    hold = rng.randint(1, 3)
+                    # across_drain (outside the claimed domain, DESIGN §7 E-10): long holds and no flush rule
+                    hold = rng.randint(4, 14) if pl.get("across_drain") else rng.randint(1, 3)
                     self.stats["held"] += 1
                 if k > 0 and stable and pl.get("late_dup") and rng.random() < 0.6:
                     hold += rng.randint(1, 3)
@@ -71,7 +90,7 @@ class Mangler:
             else:
                 item[1] -= 1
         due = [it for it in self.buf if it[1] <= 0]
-        if not due and self.buf:
+        if not due and self.buf and not self.plan.get("across_drain"):
             due = [self.buf[0]]          # flush rule
             self.stats["forced"] += 1
         if (not self.oip) and self.plan.get("perm") and len(due) > 1:
@@ -163,6 +182,11 @@ def run_one(case, monitor, mangle):
     hooks = {}
 
     def after_base(eng, world):
+        ps = case["mangle"].get("punt_secs")
+        if ps:
+            # SyncState._punt_secs = provider.default_sleep / 10: 0.001 s for MockProvider, 1.0 s / 1.5 s for the box and
+            # dropbox providers; set on the state instance for both runs of the pair
+            eng.cs.state._punt_secs = (ps, ps)
         if not mangle:
             return
         for side in (0, 1):
@@ -186,6 +210,15 @@ def run_one(case, monitor, mangle):
     world = res.extra.pop("world", None)
     effects, noops = [], []
     try:
+        if mangle and case["mangle"].get("across_drain") and eng is not None and not res.stuck:
+            # events may still be held back: deliver everything, let the engine finish, and look at the trees then
+            for m in mg.values():
+                if isinstance(m, Mangler):
+                    for it in m.buf:
+                        it[1] = 0
+            r = eng.drain(400)
+            res.extra["late_stuck"] = r is None
+            res.final_views = [world.view(0), world.view(1)]
         if eng is not None and res.request is not None:
             obs = res.request[4]
             eobs = [o for o in obs if o[0][0] == 1]
@@ -232,6 +265,19 @@ def run_pair(case, monitor):
     ref, ref_eff, ref_noop, _ = run_one(case, monitor, False)
     man, man_eff, man_noop, mstats = run_one(case, monitor, True)
     problems = []
+    if case["mangle"].get("across_drain"):
+        # outside the claimed domain (events held back across quiet points): the engine is quiet while it has not been
+        # told everything, so the monitor's "quiet => trees equal" does not apply; judged on the final outcome only
+        if ref.verdict != []:
+            problems.append(("reference", EC.describe(ref)))
+        elif man.stuck or man.extra.get("late_stuck"):
+            problems.append(("stuck", "after every held event was delivered the engine does not become quiet"))
+        elif ref.final_views != man.final_views or man.final_views[0] != man.final_views[1]:
+            problems.append(("views", "after every held event was delivered and the engine went quiet the trees differ "
+                                      "(from the reference run: %s; from each other: %s)"
+                             % (ref.final_views != man.final_views, man.final_views[0] != man.final_views[1])))
+        return dict(ref=ref, man=man, problems=problems, extra_effects=0, missing_effects=0, noop_ref=len(ref_noop),
+                    noop_man=len(man_noop), n_eff_ref=len(ref_eff), n_eff_man=len(man_eff), mangler=mstats, strict=False)
     if ref.verdict != []:
         problems.append(("reference", EC.describe(ref)))
     if man.verdict != []:
